@@ -195,6 +195,15 @@ def run_case(case_id, tier, seed, shape, kw, win, split=None, reuse=False):
         if conf:
             rec.candidates.append(dict(name=nm_, env=common.generic_point(base, D.names, seed) or {}, info=dict(kind='internal_steps', conflicts=[list(map(str, c)) for c in conf[:4]]), form='struct'))
             continue
+        # a variable the mapping does not mention cannot be attributed to a step at all: it must be inert (no cost, in no row)
+        mapped_idx = {int(i) for i in op0.mapping.index}
+        loose = [i for i in range(n) if i not in mapped_idx and (not z3.is_true(z3.simplify(L0.c[i] == 0)) or any(i in co for co, ty, rhs in L0.rows))]
+        nm_ = P + '/every_active_variable_is_mapped'
+        rec.obligations.append(dict(name=nm_, verdict='sat' if loose else 'unsat', secs=0, form='Q2'))
+        rec.distinct.add(nm_)
+        if loose:
+            rec.candidates.append(dict(name=nm_, env=common.generic_point(base, D.names, seed) or {}, info=dict(kind='unmapped_active', variables=loose), form='struct'))
+            continue
         # window variables: any mapping row in the window (harness)
         wvars = set()
         mp = op0.mapping
@@ -267,6 +276,12 @@ def judge(case, kwargs, cand, ans):
     o = ans['obs']
     if info.get('kind') == 'internal_steps':
         return common.judge_internal_steps(o['orig'])
+    if info.get('kind') == 'unmapped_active':
+        p_ = o['orig']
+        mi = {m['index'] for m in p_['mapping']}
+        bad = [i for i in range(len(p_['c'])) if i not in mi and (abs(p_['c'][i]) > 0 or any(abs(row[i]) > 0 for row in p_['A']))]
+        return (True, 'variables %s have costs / occur in rows but no mapping row: a fixed window cannot decide whether they belong to it' % bad) if bad \
+            else (False, 'every active variable has a mapping row on the unshimmed code')
     x = o['xprev']
     n = len(x)
     if scen.feasibility_residual(o['orig'], x) > 1e-6 and info.get('kind') in ('xprev_feasible', 'pins'):
